@@ -54,6 +54,11 @@ type Conn struct {
 
 	srvOff  int
 	srvStop bool
+
+	// stalled writes: the peer does not read, a Write blocks until the connection is closed or its deadline passes
+	stallW       bool
+	blockedWrite bool
+	resumeW      bool
 }
 
 func New() *Conn {
@@ -168,6 +173,30 @@ func (c *Conn) Write(p []byte) (int, error) {
 	if c.broken {
 		return 0, ErrBroken
 	}
+	for c.stallW {
+		// a write deadline that is near (cancelQuery's one second) expires; a far one does not
+		if !c.wdl.IsZero() && time.Until(c.wdl) < 5*time.Second {
+			return 0, timeoutErr("write")
+		}
+		if !c.blockedWrite {
+			c.blockedWrite, c.resumeW = true, false
+			if f := c.onBlock; f != nil {
+				c.mu.Unlock()
+				f()
+				c.mu.Lock()
+				continue
+			}
+		}
+		if c.resumeW || !c.gated {
+			if c.closed {
+				c.blockedWrite, c.resumeW = false, false
+				return 0, closedErr("write")
+			}
+			c.resumeW = false
+		}
+		c.cond.Wait()
+	}
+	c.blockedWrite = false
 	if !c.wdl.IsZero() && !time.Now().Before(c.wdl) {
 		return 0, timeoutErr("write")
 	}
@@ -306,6 +335,22 @@ func (c *Conn) BreakWritesAt(k int) {
 	c.mu.Unlock()
 }
 
+// StallWrites makes the following Writes block (the peer stopped reading) or lets them through again.
+func (c *Conn) StallWrites(on bool) {
+	c.mu.Lock()
+	c.stallW = on
+	c.mu.Unlock()
+	c.cond.Broadcast()
+}
+
+// ResumeWrite lets a parked Write re-examine the connection (gated mode).
+func (c *Conn) ResumeWrite() {
+	c.mu.Lock()
+	c.resumeW = true
+	c.mu.Unlock()
+	c.cond.Broadcast()
+}
+
 // Resume lets a parked Read continue (gated mode).
 func (c *Conn) Resume() {
 	c.mu.Lock()
@@ -337,6 +382,7 @@ type Snapshot struct {
 	CloseCalls   int
 	Touches      int
 	BlockedRead  bool
+	BlockedWrite bool
 	ReadDeadline bool
 	Overlap      bool
 }
@@ -347,6 +393,7 @@ func (c *Conn) Snap() Snapshot {
 	return Snapshot{
 		Written: c.w, Unread: len(c.rbuf), EOF: c.eof, Closed: c.closed, Broken: c.broken,
 		CloseCalls: c.closeCalls, Touches: c.touches, BlockedRead: c.blockedRead && !c.resume,
+		BlockedWrite: c.blockedWrite && !c.resumeW,
 		ReadDeadline: !c.rdl.IsZero(), Overlap: c.overlap,
 	}
 }
